@@ -656,7 +656,7 @@ class Ctx:
         kinds = {self.var_kind[n] for n in names}
         full = int(timeout_ms or self.timeout_ms)
         if not nl:
-            plan = [("default", full), ("default2", full)]
+            plan = [("default", full), ("default2", full), ("presolve", 3 * full)]
         elif kinds <= {"real"}:
             short = min(2500, full)
             plan = [("pnra", short), ("nra", short), ("default", short),
@@ -668,6 +668,8 @@ class Ctx:
                 s = z3.SolverFor("QF_NRA")
             elif tac == "pnra":
                 s = z3.Then("simplify", "purify-arith", "solve-eqs", "qfnra-nlsat").solver()
+            elif tac == "presolve":
+                s = z3.Then("simplify", "propagate-values", "solve-eqs", "smt").solver()
             elif tac == "default2":
                 s = z3.Solver()          # second opinion: the older simplex core, other seed
                 s.set("arith.solver", 2)
